@@ -1125,3 +1125,125 @@ def rule_rebase_agree(ctx, units=None):
                 why3 = f"ef = sd_vector({fmt_term(b0)}, {fmt_term(e0)}); sentinel excluded={excl}; built after the rebase loop={after}"
         obs.append(Ob('REBASE-AGREE', f, asg[-1] if asg else 0, 'the Elias-Fano structure holds the rebased keys of all segments except the sentinel', why3, OK if ok3 else VIOLATED, arm='ef'))
     return obs
+
+
+
+# ------------------------------------------------------------------------------------------ CONV-RANGE
+CONV_SITES = {
+    'pgm': ['pgm::PGMIndex::Segment::operator()'],
+    'eliasfano': ['pgm::EliasFanoPGMIndex::SegmentData::operator()'],
+    'compressed': ['pgm::CompressedPGMIndex::CompressedLevel::operator()', 'pgm::CompressedPGMIndex::search'],
+}
+
+
+def _is_const_term(t):
+    t = _strip_cast(t)
+    if t[0] in ('lit', 'flit'):
+        return True
+    if t[0] == 'static':
+        return True
+    if t[0] == 'call' and 'numeric_limits' in t[1]:
+        return True
+    if t[0] == 'op' and len(t) == 4 and t[1] in ('/', '*', '-', '+'):
+        return _is_const_term(t[2]) and _is_const_term(t[3])
+    if t[0] == 'construct' and len(t[2]) == 1:
+        return _is_const_term(t[2][0])
+    return False
+
+
+def _bounded(t):
+    """is the floating value t bounded above by a constant by construction?  std::min(p, C), p < C ? p : C, std::clamp"""
+    t = _strip_cast(t)
+    if t[0] == 'call' and t[1] in ('std::min', 'std::fmin', 'fmin') and len(t[2]) == 2:
+        return any(_is_const_term(a) for a in t[2])
+    if t[0] == 'call' and t[1] == 'std::clamp' and len(t[2]) == 3:
+        return _is_const_term(t[2][2])
+    if t[0] == 'cond':
+        c, a, b = _strip_cast(t[1]), _strip_cast(t[2]), _strip_cast(t[3])
+        if c[0] == 'op' and len(c) == 4 and c[1] in ('<', '<=', '>', '>='):
+            l, r = _strip_cast(c[2]), _strip_cast(c[3])
+            # p < C ? p : C   |   p > C ? C : p   (and the mirrored spellings)
+            if c[1] in ('<', '<='):
+                return (l == a and r == b and _is_const_term(b)) or (r == b and l == a and _is_const_term(r)) or (_is_const_term(l) and l == a and r == b and False)
+            return (l == b and r == a and _is_const_term(a)) or (_is_const_term(r) and r == a and l == b)
+        return False
+    if _is_const_term(t):
+        return True
+    return False
+
+
+def _guarded_below_const(fn, cast_node, operand):
+    """the conversion is only evaluated when its operand was compared below a constant: `p < C ? T(p) : T(C)` or
+    `if (p < C) ... T(p)`"""
+    ot = _strip_cast(fn.term(operand, inline=False))
+
+    def is_guard(cond_t, truth):
+        c = _strip_cast(cond_t)
+        if c[0] == 'un' and c[1] == '!':
+            return is_guard(c[2], not truth)
+        if c[0] == 'op' and len(c) == 4 and c[1] in ('<', '<=', '>', '>='):
+            l, r = _strip_cast(c[2]), _strip_cast(c[3])
+            if truth and c[1] in ('<', '<=') and l == ot and _is_const_term(fn_inline(fn, r)):
+                return True
+            if truth and c[1] in ('>', '>=') and r == ot and _is_const_term(fn_inline(fn, l)):
+                return True
+            if not truth and c[1] in ('>', '>=') and l == ot and _is_const_term(fn_inline(fn, r)):
+                return True
+            if not truth and c[1] in ('<', '<=') and r == ot and _is_const_term(fn_inline(fn, l)):
+                return True
+        return False
+    # conditional operator arms
+    child, par = cast_node, fn.parent(cast_node)
+    while par:
+        pn = fn.n(par)
+        if pn['c'] == 'ConditionalOperator' and len(pn['ch']) == 3:
+            arm = 1 if child == pn['ch'][1] or child in set(fn.walk(pn['ch'][1])) else 2 if child in set(fn.walk(pn['ch'][2])) else 0
+            if arm and is_guard(fn.term(pn['ch'][0], inline=False), arm == 1):
+                return True
+        child, par = par, fn.parent(par)
+    # enclosing if statements
+    g = graph(fn)
+    pos = fn.block_of(cast_node)
+    if pos:
+        for (b, lab) in g.transitive_control_deps(pos[0]):
+            c = g.cond(b)
+            if c and isinstance(lab, bool) and is_guard(fn.term(c, inline=False), lab):
+                return True
+    return False
+
+
+def fn_inline(fn, t):
+    """resolve single-definition / constexpr locals inside a term"""
+    if isinstance(t, tuple):
+        if t and t[0] == 'local' and len(t) == 3:
+            init = fn.single_def(t[2])
+            if init:
+                return fn.term(init, inline=True)
+            return t
+        return tuple(fn_inline(fn, x) for x in t)
+    return t
+
+
+def rule_conv_range(ctx, which, units=None):
+    """on the query path a floating value is converted to an integer only after it was bounded above by a constant: the
+    product slope * (k - key) is unbounded for keys far beyond the segment, and converting an out-of-range floating value
+    is undefined (in practice 0 or INT_MIN: the range then lies at the start of the segment instead of its end)"""
+    obs = []
+    us = units if units is not None else ctx.units
+    for tn in CONV_SITES[which]:
+        for f in ctx.need(tn, us):
+            n = 0
+            for i in f.all_ids():
+                nd = f.n(i)
+                if nd.get('ck') != 'FloatingToIntegral' or not reachable(f, i):
+                    continue
+                n += 1
+                sub = nd['ch'][0]
+                t = f.term(sub, inline=True)
+                ok = _bounded(t) or _guarded_below_const(f, i, sub)
+                obs.append(Ob('CONV-RANGE', f, i, 'a floating position estimate is bounded above by a constant before it is converted to an integer',
+                              f"`{fmt_term(f.term(sub, inline=False))[:90]}` " + ('is bounded' if ok else 'is converted unbounded (undefined for values beyond the integer range; e.g. a key far beyond a steep segment)'),
+                              OK if ok else VIOLATED, arm=f.name))
+            if n == 0 and not tn.endswith('::search'):
+                obs.append(Ob('CONV-RANGE', f, 0, 'a floating position estimate converted to an integer', 'no floating-to-integer conversion found in the model evaluation', UNDECIDED, arm=f.name))
+    return obs
